@@ -64,7 +64,9 @@ var fieldValues = map[string][]string{
 	"Accept": {"text/html, application/json", "application/json, text/html", "text/html", "text/html;q=0.9, */*;q=0.1",
 		// media-type parameters belong to the member: these are four different requests (and the last two are one)
 		"text/plain;charset=utf-8, text/plain", "text/plain;charset=utf-8", "text/plain", "application/json;version=1, application/json;version=2",
-		"application/json;version=1", "text/x;a=1;b=2", "text/x;b=2;a=1"},
+		"application/json;version=1", "text/x;a=1;b=2", "text/x;b=2;a=1",
+		// optional white space around the ";" of a parameter (RFC 9110 §5.6.6: OWS ";" OWS) is spelling
+		"text/plain ;charset=utf-8", "text/plain ; charset=utf-8", "text/x ;a=1 ; b=2", "application/json ;version=1"},
 }
 
 var varyConfigs = []string{"", "X-A", "X-A, X-B", "X-B, X-A", "x-a", "*", "X-A, *", "Content-Language", "User-Agent", "Authorization",
@@ -453,7 +455,8 @@ func (g *G) classes() []genClass {
 		return []genClass{{8, urls}, {2, inval}, {1, func(g *G, id string) *History { return g.genRootless(id) }}, {1, func(g *G, id string) *History { return g.genHostOverride(id) }},
 			{1, func(g *G, id string) *History { return g.genQueryDots(id) }}}
 	case "C04":
-		return []genClass{{8, vary}, {1, faults}, {1, backends}, {1, func(g *G, id string) *History { return g.genCollide(id) }}, {1, func(g *G, id string) *History { return g.genVaryReplace(id) }}}
+		return []genClass{{8, vary}, {1, faults}, {1, backends}, {1, func(g *G, id string) *History { return g.genCollide(id) }}, {1, func(g *G, id string) *History { return g.genVaryReplace(id) }},
+			{1, func(g *G, id string) *History { return g.genSelEquiv(id) }}}
 	case "C07":
 		return []genClass{{7, inval}, {2, urls}, {2, func(g *G, id string) *History { return g.genInvalRace(id) }}, {2, func(g *G, id string) *History { return g.genLocInval(id) }}, {1, func(g *G, id string) *History { return g.genHostOverride(id) }}}
 	case "C08":
@@ -468,7 +471,8 @@ func (g *G) classes() []genClass {
 		return []genClass{{8, func(g *G, id string) *History { return g.genSWR(id) }}, {2, grid}, {1, swrInval}}
 	case "C09":
 		return []genClass{{4, urls}, {3, vary}, {3, backends}, {2, chain}, {1, func(g *G, id string) *History { return g.genRootless(id) }}, {1, func(g *G, id string) *History { return g.genHostOverride(id) }},
-			{1, func(g *G, id string) *History { return g.genZoneDates(id) }}, {1, func(g *G, id string) *History { return g.genOldLastModified(id) }}}
+			{1, func(g *G, id string) *History { return g.genZoneDates(id) }}, {1, func(g *G, id string) *History { return g.genOldLastModified(id) }},
+			{1, func(g *G, id string) *History { return g.genSelEquiv(id) }}}
 	}
 	return []genClass{{1, grid}}
 }
